@@ -702,6 +702,51 @@ def longdelay_history(focus):
     return h.ops
 
 
+def blocked_history(focus):
+    """the application has signals blocked in its own mask when the instance is built (`new Cnn blk=…`: a threaded
+    program that blocks signals in main), then watches them: every delivery - before an iteration, inside the wait,
+    from a callback - must still reach the watchers within the next iterations"""
+    h = Hist(focus)
+    stats["histories_blocked"] += 1
+    sigs = rng.sample(SIGS, rng.choice([1, 1, 2]))
+    if rng.random() < 0.2:
+        sigs.append(28)                      # SIGWINCH, which the instance itself watches
+    h.ops[0] += " blk=" + ",".join(str(x) for x in sigs)
+    mine = [x for x in sigs if x != 28]
+    for sg in mine:
+        for _ in range(rng.choice([1, 1, 2])):
+            k = h.slot("signal"); f = h.flags()
+            behs = []
+            if rng.random() < 0.3:
+                h.add_beh(k, "signal", 0, behs)
+            h.ops += behs
+            h.ops.append(f"signal {k} {sg} {f}")
+            h.persistent.append(k); h.top_live.append(k); h.watched_sigs.add(sg)
+            stats["reg_top_signal"] += 1
+    if rng.random() < 0.4:
+        h.reg_top()
+    for _ in range(rng.choice([1, 2, 3])):
+        sg = rng.choice(mine)
+        c = rng.random()
+        if c < 0.45:
+            h.ops.append(f"raise {sg}"); stats["raise_pre"] += 1
+        elif c < 0.8:
+            h.ops.append(f"inpoll {sg}"); stats["raise_inpoll"] += 1
+        else:
+            k = h.slot("later")
+            h.ops.append(f"beh {k} 0 R,{sg}")
+            h.ops.append(f"later {k} 0"); stats["act_raise"] += 1
+        h.ops.append(rng.choice(["tick", "tick", "tickhang"])); stats["tick"] += 1
+        if rng.random() < 0.5:
+            h.ops.append("tick"); stats["tick"] += 1
+    for _ in range(rng.randint(0, 6)):
+        h.step()
+    h.finish()
+    stats["histories"] += 1
+    stats["ops_len_%02d" % (len(h.ops) // 10 * 10)] += 1
+    return h.ops
+
+
 def random_history(focus):
     c = rng.random()
     if c < 0.2:
@@ -716,6 +761,8 @@ def random_history(focus):
         return unbind_history(focus)
     if c < 0.56 and focus == "C17":
         return longdelay_history(focus)
+    if c < 0.58 and focus == "C18":
+        return blocked_history(focus)
     fb = rng.random() < 0.25
     h = Hist(focus, fb)
     if fb:
